@@ -15,7 +15,7 @@ ASSUMPTIONS = ['the classifier is told the number of bytes it may read (frame_le
 project = ident
 
 OWN = '02aabbccdd01'
-NEAR = ['03aabbccdd01', '02abbbccdd01', '02aabcccdd01', '02aabbcddd01', '02aabbccde01', '02aabbccdd00', '000000000000', 'ffffffffffff']
+NEAR = ['02aabb000000', '02aabbccdd02', '02aabb112233', '03aabbccdd01', '02abbbccdd01', '02aabcccdd01', '02aabbcddd01', '02aabbccde01', '02aabbccdd00', '000000000000', 'ffffffffffff']
 MAPPERS = ['020000000011', '020000000012', '0200000000aa']
 
 
@@ -51,7 +51,7 @@ def cases(rng, tier, X):
             avail = rng.choice([1500, 576, len(f) // 2, len(f) // 2])
             if avail < len(f) // 2:
                 avail = len(f) // 2
-            ops.append('ev 0 %s avail=%d tbl=%s' % (f, avail, rng.choice(['0', '0', '-'])))
+            ops.append('ev 0 %s avail=%d tbl=%s%s' % (f, avail, rng.choice(['0', '0', '-']), rng.choice(['', ' off=2'])))      # half of them in an image 2 bytes past a word boundary
     out.append(('positions', ops))
     # the own address present in the BYTES of the list but at no entry: straddling two consecutive entries at every byte
     # offset, starting in the generation / count fields before the list, running past the declared count into the
@@ -126,6 +126,8 @@ def cases(rng, tier, X):
             ops.append('ev 0 %s avail=%d tbl=%s' % (f, len(f) // 2 + rng.choice([0, 0, 3, 6, 700]), rng.choice(['0', '0', '0', '-'])))
         out.append(('rand%d' % k, ops))
     # universal automata schedule (all public calls, missing objects, near-colliding keys, bridged frames, every deadline): this check's predicate on it
+    # one kind of call repeated hundreds of times (run lengths, counters, thresholds), then the consequences
+    out += auto.soak_cases(rng, tier)
     for k in range(150 if tier == 'quick' else 6000):
         out.append(('au%d' % k, auto.schedule(rng)))
         if k % 3 == 0:
